@@ -2876,7 +2876,7 @@ class Entity(MutableMapping[str, str]):
         orig_name = self['targetname']
         if orig_name:
             # If this name is already unique, preserve it.
-            if self.map.by_target[orig_name] == {self}:
+            if self.map.by_target[orig_name.casefold()] == {self}:
                 return self
 
             self['targetname'] = ''  # Remove ourselves from the .by_target[] set.
@@ -2885,12 +2885,12 @@ class Entity(MutableMapping[str, str]):
 
         base_name = orig_name.rstrip('0123456789')
 
-        if self.map.by_target[base_name]:
+        if self.map.by_target[base_name.casefold()]:
             # Check every index in order.
             i = 1
             while True:
                 name = base_name + str(i)
-                if not self.map.by_target[name]:
+                if not self.map.by_target[name.casefold()]:
                     self['targetname'] = name
                     break
                 i += 1
@@ -3002,9 +3002,9 @@ class Entity(MutableMapping[str, str]):
                     raise ValueError('The worldspawn entity must remain worldspawn!')
                 self.map.by_class['worldspawn'].add(self)
         elif key_fold == 'targetname':
-            _remove_copyset(self.map.by_target, orig_val, self)
+            _remove_copyset(self.map.by_target, (orig_val or '').casefold() or None, self)
             if self in self.map.entities:
-                self.map.by_target[str_val].add(self)
+                self.map.by_target[str_val.casefold() or None].add(self)
         elif key_fold == 'nodeid':
             try:
                 node_id = int(orig_val)  # type: ignore  # Using as a cast
